@@ -289,4 +289,18 @@ harness's fall-through rule on top) -/
 def run (c : Cfg) (s : State) (sched : List Nat) : State :=
   sched.foldl (fun s t => if enabled c s t then (astep c s t).1 else s) s
 
+/-! ## move-assignment of `promise_with_default` objects (configuration level)
+
+`a = std::move(b)` takes over the future `b` owns (one `claim` on `b`, a plain store into `a`); what matters for the
+model is which default value the object that finally owns the future — and whose destruction is the `Kind.ddef`
+agent — carries. -/
+
+/-- default value of `a` after `a = std::move(b)`: `b`'s default travels with the ownership
+(`def = std::move(other.def)`) -/
+def assignedDefault (_aDef bDef : Nat) : Nat := bDef
+
+/-- as the pinned code had it: `def = std::move(def)` (a self-move) — `a` keeps its own, old default for the
+future it took over from `b` -/
+def assignedDefaultAsIs (aDef _bDef : Nat) : Nat := aDef
+
 end Cocls.Chain
